@@ -24,9 +24,9 @@ def run(check: Check) -> None:
     from .activation_sem import activation_semantics
 
     # General: every loaded rule is deactivated, its degree computed and the rule triggered, with the block's operators (interpreted on model blocks)
-    activation_semantics(check, "General", ("deactivate-first", "degrees", "conjunction", "disjunction", "implication", "selection"))
+    activation_semantics(check, "General", ("deactivate-first", "degrees", "conjunction", "disjunction", "implication", "selection", "accumulated"))
     for cls in c08.ACTIVATIONS[1:]:  # the selective methods hand the same three operators of the block to the rules they fire
-        activation_semantics(check, cls, ("conjunction", "disjunction", "implication"))
+        activation_semantics(check, cls, ("conjunction", "disjunction", "implication") + (("accumulated",) if cls in ("First", "Last", "Threshold") else ()))
     wiring.p3_weight(check)
     wiring.p4_trigger(check)
     from .consequent_sem import consequent_semantics
